@@ -790,7 +790,7 @@ func main() {
 				eval(mk("repo-file-mutated", mutate(r, f)), false)
 			}
 		}
-		niter := c.Scale(260, 5000)
+		niter := c.Scale(180, 5000)
 		for i := 0; i < niter; i++ {
 			r := c.Rng.Fork()
 			p := program(r)
